@@ -36,13 +36,19 @@ func init() {
 			c := config.Get()
 			c.NoStdoutLogging, c.NoStderrLogging, c.NoFileLogging = true, true, true
 			c.Job = "c17cycles"
+			c.Prometheus = true // the exported gauges are read too
+			c.PrometheusPrefix = "zv_"
 			log.Start()
-			stats.VerifReinit()
+			if err := stats.Init(); err != nil {
+				note("stats.Init: " + err.Error())
+			}
 		},
 		Gen:  genCycles,
 		Exec: execCycles,
 	})
 }
+
+var promMissed bool
 
 func genCycles(r *Rng, i int, tier string) string {
 	st := []string{"o", "p", "a"}[i%3]
@@ -76,6 +82,21 @@ func execCycles(in string) Result {
 	defer watchdog.Stop()
 	in1, out1 := make(chan *models.Item), make(chan *models.Item)
 	live, after := map[uint64]int{}, map[uint64]int{}
+	plive, pafter := map[uint64]int{}, map[uint64]int{} // the exported (Prometheus) gauge
+	prom := func() uint64 {
+		v, ok := stats.VerifPromRoutines(idx)
+		if !ok {
+			return 1 << 40
+		}
+		if v < 0 {
+			return uint64(int64(v))
+		}
+		return uint64(v)
+	}
+	liveWait := 10 * time.Second
+	if promMissed {
+		liveWait = 100 * time.Millisecond
+	}
 	reached := true
 	done := 0
 	for c := 0; c < cycles && reached; c++ {
@@ -111,10 +132,26 @@ func execCycles(in string) Result {
 			runtime.Gosched()
 		}
 		l := get()
+		// a worker bumps the exported gauge right after the internal one (same function): it follows
+		// within a moment.  Wait generously for that; after a first miss in this process wait briefly.
+		pl := prom()
+		if pl != uint64(n) {
+			t0 := time.Now()
+			for y := 0; pl != uint64(n) && (time.Since(t0) < liveWait || y < 100000); y++ {
+				runtime.Gosched()
+				pl = prom()
+			}
+			if pl != uint64(n) {
+				liveWait, promMissed = 100*time.Millisecond, true
+			}
+		}
 		stop()
 		a := get() // the statement right after Stop() returned
+		pa := prom() // every worker finished its XRoutinesDecr (both halves) before wg.Done
 		live[l]++
 		after[a]++
+		plive[pl]++
+		pafter[pa]++
 		done++
 	}
 	hist := func(m map[uint64]int) string {
@@ -141,7 +178,7 @@ func execCycles(in string) Result {
 		tags = append(tags, "n:17-64")
 	}
 	return Result{
-		Term:       fmt.Sprintf("YC %s %d %d %d %s %s %s", cidCoq[idx], n, cycles, done, coqBool(reached), hist(live), hist(after)),
+		Term:       fmt.Sprintf("YC %s %d %d %d %s %s %s %s %s", cidCoq[idx], n, cycles, done, coqBool(reached), hist(live), hist(after), hist(plive), hist(pafter)),
 		Tags:       tags,
 		Nontrivial: n >= 2 && cycles >= 50,
 	}
